@@ -13,18 +13,26 @@ from opv.core import Result
 ID = "C22"
 LEVEL = "exploration"
 TECHNIQUE = "runtime monitoring: differential against hand-written recognisers of the documented argument languages"
-RULE = ("seeded configurations: RegexNumber / RegexNumberOptional (units None or 1-4 units, non_negative, int_only) and "
+RULE = ("seeded configurations: RegexNumber / RegexNumberOptional (units None or 1-4 units, non_negative, int_only), the "
+        "built-in constants REGEX_DURATION / REGEX_DURATION_OPTIONAL / REGEX_INT (5 % of the configurations) and "
         "RegexCategorical (exclusive and/or additive lists of 1-4 options); list items are 1-4 characters over letters, "
         "digits (options only), blanks and the regex metacharacters . * + ? | ( ) [ ] { } \\ / $ ^ - %; per configuration "
         "~25 candidate strings: members of the documented language, single-edit near-misses (insert/delete/replace/"
-        "swap), and fixed hostile strings ('', ' ', '+1', '--1', '1e5', '1,5', '1.2.3', 'A++B', '+A', 'AB', 'A+' ...). "
+        "swap), fixed hostile strings ('', ' ', '+1', '--1', '1e5', '1,5', '1.2.3', 'A++B', '+A', 'AB', 'A+' ...) and, "
+        "for every number configuration, 6 members of the language re-written with decimal digits of another script "
+        "(Arabic-Indic, extended Arabic-Indic, fullwidth, Devanagari, Bengali, Thai: all digits / one digit / the "
+        "fraction / the integer part re-written, sign, fraction, blanks and unit as generated) plus one with a "
+        "non-decimal digit character (superscript, circled ...). "
         "distinct = (pattern kind, flags, list shape, candidate origin, oracle verdict); non-trivial = a list item has a "
         "metacharacter or blank, or the candidate is a near-miss")
 ASSUMPTIONS = [
     "documented language of numbers: optional blanks, optional '-' (unless non_negative), D+ or D+.D+ (no fraction when "
     "int_only), optional blanks, then - iff units were declared - one declared unit, optional blanks; delivered groups "
     "'number' / 'number_unit' must be one valid decomposition of the input",
-    "NOT asserted (counted as unspecified): '1.', '.5', a leading '+', '-0' under non_negative, non-ASCII digits, any "
+    "digits are the ten ASCII characters 0-9 (the documented patterns are written with [0-9], P-code numbers are "
+    "ASCII): a number token containing any other character for which str.isdigit()/isdecimal() is true is outside "
+    "the language, so a candidate whose only possible number tokens contain such a character is a definite reject",
+    "NOT asserted (counted as unspecified): '1.', '.5', a leading '+', '-0' under non_negative, any "
     "whitespace other than the blank, a bare number when units were declared, repeated additive options, leading/"
     "trailing whitespace around categorical values",
     "documented language of categoricals: exactly one exclusive option, or a1+a2+...+an (n >= 1) of additive options; "
@@ -34,13 +42,39 @@ ASSUMPTIONS = [
     "distinct within a list",
 ]
 REQUIRED = {"candidates": 20000, "definite_accepts_checked": 4000, "definite_rejects_checked": 4000,
-            "introspection_checks": 1500, "group_delivery_checks": 4000}
+            "introspection_checks": 1500, "group_delivery_checks": 4000,
+            "non_ascii_digit_rejects_checked": 3000, "non_ascii_digit_pure_rejects": 500,
+            "non_ascii_digit_mixed_rejects": 500, "non_ascii_digit_with_unit_rejects": 500,
+            "builtin_constant_candidates": 1000}
 EXHAUSTIVE_ALL = False
 
 META = list(".*+?|()[]{}\\/$^-%")
 LETTERS = list("ABabkgLhmµ°")
 DIGITS = list("0123456789")
 WS_OTHER = "\t\n\r\x0b\x0c\xa0\u2003"
+# decimal digits (category Nd) of other scripts: python's \\d matches them, [0-9] does not
+UNI_DIGIT_SETS = {
+    "arabic_indic": "\u0660\u0661\u0662\u0663\u0664\u0665\u0666\u0667\u0668\u0669",
+    "ext_arabic_indic": "\u06f0\u06f1\u06f2\u06f3\u06f4\u06f5\u06f6\u06f7\u06f8\u06f9",
+    "fullwidth": "\uff10\uff11\uff12\uff13\uff14\uff15\uff16\uff17\uff18\uff19",
+    "devanagari": "\u0966\u0967\u0968\u0969\u096a\u096b\u096c\u096d\u096e\u096f",
+    "bengali": "\u09e6\u09e7\u09e8\u09e9\u09ea\u09eb\u09ec\u09ed\u09ee\u09ef",
+    "thai": "\u0e50\u0e51\u0e52\u0e53\u0e54\u0e55\u0e56\u0e57\u0e58\u0e59",
+}
+UNI_SCRIPTS = ["arabic_indic", "fullwidth", "devanagari", "arabic_indic", "fullwidth", "devanagari", "ext_arabic_indic",
+               "bengali", "thai"]
+# str.isdigit() is true but not a decimal digit: superscripts, circled / parenthesised / dotted digits, Kharoshthi-free
+OTHER_DIGITS = "\u00b2\u00b3\u00b9\u2070\u2074\u2460\u2474\u2488\u24f5\u2776"
+BUILTINS = {
+    "REGEX_DURATION": {"kind": "number", "units": ["s", "min", "h"], "non_negative": True, "int_only": False},
+    "REGEX_DURATION_OPTIONAL": {"kind": "number_optional", "units": ["s", "min", "h"], "non_negative": True,
+                                "int_only": False},
+    "REGEX_INT": {"kind": "number", "units": None, "non_negative": True, "int_only": True},
+}
+
+
+def is_non_ascii_digit(ch: str) -> bool:
+    return ch not in "0123456789" and (ch.isdigit() or ch.isdecimal())
 
 
 # ---------------------------------------------------------------------------------------------------------------------
@@ -78,6 +112,9 @@ def gen_list(rnd: random.Random, digits_ok: bool, avoid=()) -> list[str]:
 
 def gen_config(rnd: random.Random) -> dict:
     r = rnd.random()
+    if r < 0.05:
+        name = rnd.choice(sorted(BUILTINS))
+        return dict(BUILTINS[name], builtin=name)
     if r < 0.4:
         kind = "number"
     elif r < 0.5:
@@ -144,6 +181,42 @@ def edit(rnd: random.Random, s: str, cfg) -> str:
     return s[:i] + rnd.choice(WS_OTHER) + s[i:]
 
 
+def unicode_digit_variants(rnd: random.Random, cfg):
+    """members of the documented language with ASCII digits re-written in another script; units carry no digits, so
+    every digit of a member belongs to its number token. Returns [(origin, string)]."""
+    out = []
+    modes = ("pure", "pure", "one", "one", "integer", "one" if cfg["int_only"] else "fraction")
+    for mode in modes:
+        for _ in range(40):
+            m = number_member(rnd, cfg)
+            pos = [i for i, ch in enumerate(m) if ch in "0123456789"]
+            dot = m.find(".")
+            if mode == "pure":
+                sel = pos
+            elif mode == "one":
+                sel = [rnd.choice(pos)] if len(pos) >= 2 else []
+            elif mode == "fraction":
+                sel = [i for i in pos if i > dot] if dot >= 0 else []
+            elif dot >= 0:
+                sel = [i for i in pos if i < dot]
+            else:
+                sel = pos[:rnd.randint(1, len(pos) - 1)] if len(pos) >= 2 else []
+            if not sel:
+                continue
+            table = UNI_DIGIT_SETS[rnd.choice(UNI_SCRIPTS)]
+            chars = list(m)
+            for i in sel:
+                chars[i] = table[int(chars[i])]
+            out.append(("unicode_digit_pure" if len(sel) == len(pos) else "unicode_digit_mixed", "".join(chars)))
+            break
+    m = number_member(rnd, cfg)
+    pos = [i for i, ch in enumerate(m) if ch in "0123456789"]
+    i = rnd.choice(pos)
+    od = rnd.choice(OTHER_DIGITS)
+    out.append(("other_digit_char", rnd.choice((m[:i] + od + m[i + 1:], m[:i] + od + m[i:], m[:i + 1] + od + m[i + 1:]))))
+    return out
+
+
 NUMBER_FIXED = ["", " ", "+1", "--1", "1e5", "1,5", "1.2.3", "٣", "1.", ".5", "-", ".", "- 1", "1 2", "1\n", "-.5", "1.5.",
                 "0x10", "1_000", "١٢", "-0", "1 -", "..1", "1-", "NaN", "inf"]
 
@@ -167,6 +240,7 @@ def number_candidates(rnd: random.Random, cfg, n: int):
         out.append(("fixed", rnd.choice(units)))                                           # unit without number
     else:
         out.append(("fixed", gen_number_token(rnd, cfg) + " kg"))
+    out.extend(unicode_digit_variants(rnd, cfg))
     return out
 
 
@@ -210,16 +284,12 @@ def number_token_class(tok: str, non_negative: bool, int_only: bool) -> str:
     body = tok[1:] if neg else tok
     if body == "":
         return "no"
-    uni = False
     for ch in body:
         if ch == ".":
             continue
         if ch in "0123456789":
             continue
-        if ch.isdigit() or ch.isdecimal():
-            uni = True
-            continue
-        return "no"
+        return "no"                    # includes decimal digits of other scripts: digits are 0-9
     dots = body.count(".")
     if dots > 1:
         return "no"
@@ -234,8 +304,6 @@ def number_token_class(tok: str, non_negative: bool, int_only: bool) -> str:
             cls = "unspec"             # '1.'
         elif not ip or not fp:
             cls = "unspec"             # '.5' / '1.'
-    if uni:
-        cls = "unspec"
     if neg and non_negative:
         if all(ch in "0." for ch in body):
             return "unspec"            # '-0'
@@ -363,7 +431,10 @@ def _call(fn, *a):
 def build(cfg):
     from openpectus.lang.exec.regex import RegexNumber, RegexNumberOptional, RegexCategorical
     from openpectus.lang.exec.uod import RegexNamedArgumentParser
-    if cfg["kind"] == "number":
+    if cfg.get("builtin"):
+        import openpectus.lang.exec.regex as rxm
+        rx = getattr(rxm, cfg["builtin"])
+    elif cfg["kind"] == "number":
         rx = RegexNumber(units=cfg["units"], non_negative=cfg["non_negative"], int_only=cfg["int_only"])
     elif cfg["kind"] == "number_optional":
         rx = RegexNumberOptional(units=cfg["units"], non_negative=cfg["non_negative"], int_only=cfg["int_only"])
@@ -470,6 +541,18 @@ def check_candidate(cfg, regex, parser, origin: str, s: str, res: Result):
                                     f"of {cfg['exclusive']!r} nor a '+'-list of additive options {cfg['additive']!r}", case)
         return verdict
     verdict, definite, unspec = number_oracle(s, cfg)
+    if cfg.get("builtin"):
+        res.count("builtin_constant_candidates")
+    nad = [ch for ch in s if is_non_ascii_digit(ch)]
+    if nad:
+        res.count("non_ascii_digit_candidates")
+        if verdict == REJECT:
+            res.count("non_ascii_digit_rejects_checked")
+            if all(ch.isdecimal() for ch in nad):
+                asc = any(ch in "0123456789" for ch in s)
+                res.count("non_ascii_digit_mixed_rejects" if asc else "non_ascii_digit_pure_rejects")
+            if cfg["units"] and any(s.rstrip(" ").endswith(u) for u in cfg["units"]):
+                res.count("non_ascii_digit_with_unit_rejects")
     if verdict == UNSPEC:
         res.count("unspecified_candidates")
     elif verdict == ACCEPT:
@@ -490,7 +573,15 @@ def check_candidate(cfg, regex, parser, origin: str, s: str, res: Result):
     else:
         res.count("definite_rejects_checked")
         if accepted:
-            res.violation(None, f"{s!r} accepted (groups {groups!r}) but is not a documented number argument (units="
+            mech = None
+            num = groups.get("number") or ""
+            if any(is_non_ascii_digit(ch) and ch.isdecimal() for ch in num) and \
+                    number_token_class("".join(str(int(ch)) if ch.isdecimal() else ch for ch in num),
+                                       cfg["non_negative"], cfg["int_only"]) != "no":
+                # the delivered number is a documented number once its digits are mapped to 0-9: the digit class of
+                # the pattern is wider than 0-9 (Unicode category Nd)
+                mech = "C22.number_accepts_non_ascii_decimal_digits"
+            res.violation(mech, f"{s!r} accepted (groups {groups!r}) but is not a documented number argument (units="
                                 f"{cfg['units']!r}, non_negative={cfg['non_negative']}, int_only={cfg['int_only']})", case)
     return verdict
 
@@ -515,8 +606,8 @@ def run_config(cfg, rnd: random.Random, n: int, res: Result):
     for origin, s in cands:
         verdict = check_candidate(cfg, regex, parser, origin, s, res)
         nontrivial = meta or origin != "member"
-        key = (cfg["kind"], cfg.get("non_negative"), cfg.get("int_only"), bool(cfg.get("units")), bool(cfg.get("exclusive")),
-               bool(cfg.get("additive")), meta, origin, verdict)
+        key = (cfg.get("builtin") or cfg["kind"], cfg.get("non_negative"), cfg.get("int_only"), bool(cfg.get("units")),
+               bool(cfg.get("exclusive")), bool(cfg.get("additive")), meta, origin, verdict)
         res.case(key if nontrivial else None,
                  sample={"cfg": cfg, "candidate": s, "origin": origin, "oracle": verdict} if nontrivial else None)
 
